@@ -10,6 +10,8 @@ import Proofs.C12Expr
 
   Full statement of the property, and where each part is:
     (a) for every value v of every well-formed decode tree, `root | getpath(v | topath)` is v itself   — `path_resolves`
+    (a′) … at every depth d, and the path has exactly d components (one per ancestor)                   — `path_length_is_depth`,
+        `path_resolves_at_depth`, `dropped_component_impossible`; trees of every depth exist            — `deep_trees_exist`
     (b) the parent contains v under its reported name (struct) or index (array), and that name/index
         is the last element of the reported path                                                       — `parent_contains`
     (c) `root` of every value is the top of the tree, which has no parent                               — `root_of_all`
@@ -36,6 +38,62 @@ def exInfo (name : String) (index : Int) (kind : Kind) (isRoot hasFormat : Bool 
 theorem path_resolves (t : Tree) (h : WF t) (n : Ptr) (v : Tree) (hv : deref t n = some v) :
     resolve t (pathOf t n) = some n :=
   Proofs.C12Nav.path_resolves h n hv
+
+/-! ### (a′) depth: the path has exactly one component per level, at every depth -/
+
+/-- the path of a value has exactly as many components as the value has ancestors (`depth` = number of
+    `.Parent` steps to the top, counted on the pointer). There is no bound on the depth: an implementation
+    that drops (or adds) a component for some value — at depth 33 or anywhere else — contradicts this. -/
+theorem path_length_is_depth (t : Tree) (h : WF t) (n : Ptr) (v : Tree) (hv : deref t n = some v) :
+    (pathOf t n).length = depth n :=
+  Proofs.C12Nav.pathOf_length h n hv
+
+/-- `depth` is the number of parents (`parents | length` in jq) and the length of the pointer -/
+theorem depth_is_parents_length (n : Ptr) : depth n = (parents n).length ∧ depth n = n.length :=
+  ⟨depth_eq_parents_length n, depth_eq_length n⟩
+
+/-- a child's path is its parent's path plus exactly one component -/
+theorem path_grows_by_one (t : Tree) (h : WF t) (k : Nat) (up : Ptr) (v : Tree)
+    (hv : deref t (k :: up) = some v) : (pathOf t (k :: up)).length = (pathOf t up).length + 1 :=
+  Proofs.C12Nav.pathOf_child_length h hv
+
+/-- (a) and (a′) at every depth `d` (a corollary of `path_resolves`, stated with the depth explicit): every value
+    `d` levels below the top of a well-formed tree has a path of exactly `d` components which resolves to it -/
+theorem path_resolves_at_depth (d : Nat) (t : Tree) (h : WF t) (n : Ptr) (v : Tree)
+    (hv : deref t n = some v) (hd : depth n = d) :
+    (pathOf t n).length = d ∧ resolve t (pathOf t n) = some n :=
+  ⟨hd ▸ path_length_is_depth t h n v hv, path_resolves t h n v hv⟩
+
+/-- so no list with fewer (or more) components than the depth is the path of the value: "a component is
+    missing" is a contradiction, at every depth -/
+theorem dropped_component_impossible (t : Tree) (h : WF t) (n : Ptr) (v : Tree) (hv : deref t n = some v)
+    (p : Path) (hp : p.length ≠ depth n) : p ≠ pathOf t n := by
+  intro e; exact hp (e ▸ path_length_is_depth t h n v hv)
+
+/-- non-vacuity for ALL depths: for every `d` there is a well-formed tree (alternating structs and arrays, keys
+    that need quoting, the nested compound at the non-zero array index 1) with a value at depth exactly `d`,
+    and the two statements above hold of it -/
+theorem deep_trees_exist (d : Nat) :
+    ∃ t n v, WF t ∧ deref t n = some v ∧ depth n = d ∧
+      (pathOf t n).length = d ∧ resolve t (pathOf t n) = some n := by
+  obtain ⟨v, hv, _⟩ := chain_deep "" (-1) d false
+  have hwf : WF (chain "" (-1) d false) := chain_wf "" (-1) d false
+  have hd : depth (List.replicate d 1) = d := by rw [depth_eq_length]; simp
+  exact ⟨_, _, v, hwf, hv, hd, path_resolves_at_depth d _ hwf _ v hv hd⟩
+
+example : pathOf (chain "" (-1) 5 false) [1, 1, 1, 1, 1] = [.inl "a b", .inr 1, .inl "a b", .inr 1, .inl "a b"] := by
+  decide
+example : depth (List.replicate 40 1) = 40 ∧ (pathOf (chain "" (-1) 40 false) (List.replicate 40 1)).length = 40 ∧
+    resolve (chain "" (-1) 40 false) (pathOf (chain "" (-1) 40 false) (List.replicate 40 1)) = some (List.replicate 40 1) := by
+  decide
+
+/-- `WF` cannot be dropped from `path_length_is_depth`: below a value that the decoder marked as a leaf
+    (`Parent.V` is not a `*decode.Compound`, interp.go:207 has no default case) nothing is collected -/
+theorem wf_needed_depth :
+    let t : Tree := .mk (exInfo "" (-1) .struct true true)
+      [ .mk (exInfo "l" (-1) .leaf) [ .mk (exInfo "x" (-1) .leaf) [] ] ]
+    ¬ WF t ∧ (deref t [0, 0]).isSome = true ∧ depth [0, 0] = 2 ∧ (pathOf t [0, 0]).length = 1 := by
+  decide
 
 /-! ### (b) -/
 
